@@ -195,7 +195,7 @@ PROPS = {
         "run": run_c10,
         "level": "exploration",
         "design_ref": "DESIGN.md section 4 C10",
-        "level_text": "Lockstep runtime monitor against a reference debugger model: at every prompt the paused machine (registers, PC, CC, memory, instruction count, breakpoints, output) is compared with the model advanced by the same command prefix. Exhaustive over all scripts up to length 3 (quick) / 4 (thorough) of a 14-command alphabet on 12 fixed programs (loops, nested/recursive subroutines in both conventions, HALT in the middle, jumps out of user space, I/O, .break), plus random scripts on generated programs.",
+        "level_text": "Lockstep runtime monitor against a reference debugger model: at every prompt the paused machine (registers, PC, CC, memory, instruction count, breakpoints, output) is compared with the model advanced by the same command prefix. Exhaustive over all scripts up to length 3 (quick) / 4 (thorough) of a 14-command alphabet on 12 fixed programs (loops, nested/recursive subroutines in both conventions, HALT in the middle, jumps out of user space, I/O, .break), plus random scripts on generated programs (with reset/goto between the stepping commands, label+offset and ^-relative breakpoints). At the CLI six stepping scripts with known final registers go through --command, standard input with and without a final newline, and split between the two.",
         "level_note": "Exhaustive only inside the stated script-length bound and fixed program set; the reference model is trusted.",
         "technique": "runtime monitoring: online trace checking of prompt snapshots (hook at the debugger's read point) against an executable reference model; bounded-exhaustive scripts",
         "rule": "case = (program, command script); non-trivial = at least one resuming command executed at least one instruction; distinct = hash of source and script",
@@ -375,7 +375,7 @@ PROPS = {
         "run": run_c02,
         "level": "exploration",
         "design_ref": "DESIGN.md section 4 C02",
-        "level_text": "Differential runtime monitor: every one of the 61,440 non-RTI instruction words is executed by the real RunState::execute on generated boundary/random machine states under both feature settings and the complete resulting state (registers, PC, CC, all 65,536 words, output, exit code) is compared with an independent reference VM; overflow-checked and release builds; Miri over the decode-distinct patterns in the thorough tier. Exhaustive over instruction words, sampled over states.",
+        "level_text": "Differential runtime monitor: every one of the 61,440 non-RTI instruction words is executed by the real RunState::execute on generated boundary/random machine states under both feature settings and the complete resulting state (registers, PC, CC, all 65,536 words, output, exit code) is compared with an independent reference VM; overflow-checked and release builds; Miri over the decode-distinct patterns in the thorough tier. Exhaustive over instruction words, sampled over states. Besides: one case in eight through the real fetch/execute loop; short instruction sequences with a write between two dependent instructions (whatever is remembered besides the visible state would show); the same single instructions executed by `step into` under the debugger after goto/move/reset; input traps on a real pipe, regular file and under `lace debug` at the CLI.",
         "level_note": "Trusted: the reference VM (refvm.rs) and the state generator's reach. States per word are sampled (K per word per flag), not enumerated.",
         "technique": "runtime monitoring: differential oracle (reference LC-3 VM) over hooked RunState::execute, full-state comparison; rustc overflow/debug assertions; Miri on the decode-distinct patterns (thorough)",
         "rule": "every instruction word except opcode 8 (RTI) x K generated machine states x stack feature on/off; a case is non-trivial when the reference effect changes a register, PC, CC, memory, output or ends execution; distinct = hash of (word, registers, PC, CC)",
